@@ -94,4 +94,9 @@ func init() {
 		Monitors: func() []mon.Monitor { return []mon.Monitor{mon.NewC10()} },
 		Plan:     plan([]run.PlanItem{pi("forced", 12), pi("mix", 4)}, []run.PlanItem{pi("forced", 48), pi("mix", 16)}),
 		Assume:   []string{boundsAssume, "health is measured with the implementation's own GetPositionHealth / GetMTPHealth; lists are replayed entry by entry with the module's own single-entry handler (assumes sequential list processing: liquidate, stop-loss, take-profit); both the stored health and the health recomputed after the tx are compared hard (no tolerance band)"}}
+	run.Props["C20"] = &run.PropSpec{ID: "C20", Level: "exploration",
+		Rule:     "one evaluation = one (order, execution request) with the trigger condition evaluated by the monitor from the market price the handler reads, or one per-owner wallet+escrow conservation equation around a tradeshield transaction of anyone; distinct = (order, height, trigger, outcome) or (owner, height, funds) new",
+		Monitors: func() []mon.Monitor { return []mon.Monitor{mon.NewC20()} },
+		Plan:     plan([]run.PlanItem{pi("orders", 12)}, []run.PlanItem{pi("orders", 48)}),
+		Assume:   []string{boundsAssume, "market price read with the same exported functions the handlers use (amm.CalculateUSDValue, perpetual.GetAssetPrice); single-message transactions"}}
 }
